@@ -55,14 +55,14 @@ structure BoolReq where
   a : MPoly
   b : MPoly
 
-def parseBool : P BoolReq := do
+def parseBool (resolve : Nat → Option MPoly := fun _ => none) : P BoolReq := do
   let (ar, prec) ← arith
   let o ← op
   let dbg ← bool
   let budget ← nat
   let pairing ← tok
-  let a ← mpoly
-  let b ← mpoly
+  let a ← mpolyRef resolve
+  let b ← mpolyRef resolve
   pure { ar := ar, prec := prec, op := o, cfg := { dbg := dbg, budget := budget }, pairing := pairing, a := a, b := b }
 
 def runBoolReq (r : BoolReq) (ar : Arith) : Except Fail RunOut :=
@@ -87,19 +87,13 @@ def runFillq : P String := do
   let evs := order.toList.map (fun i => " | " ++ showEvent f.fq.arena (fun _ => -2) i)
   pure (s!"OK sb {showBoxOpt f.sbbox} cb {showBoxOpt f.cbbox} n={order.size}" ++ String.join evs)
 
-def runSubdiv : P String := do
-  let (ar, prec) ← arith
-  let o ← op
-  let dbg ← bool
-  let budget ← nat
-  let a ← mpoly
-  let b ← mpoly
-  if !(mpInRange prec a && mpInRange prec b) then pure "SKIP-RANGE" else
+def subdivAnswer (ar : Arith) (prec : String) (o : Op) (cfg : Cfg) (a b : MPoly) : String :=
+  if !(mpInRange prec a && mpInRange prec b) then "SKIP-RANGE" else
   let f := fillQueue a b o
   match f.sbbox, f.cbbox with
   | some sb, some cb =>
-    match subdivide ar { dbg := dbg, budget := budget } f.fq sb cb o with
-    | .error e => pure (showFail e)
+    match subdivide ar cfg f.fq sb cb o with
+    | .error e => showFail e
     | .ok sw =>
       let posMap : Array Int := Id.run do
         let mut m : Array Int := Array.replicate sw.arena.size (-2)
@@ -107,8 +101,17 @@ def runSubdiv : P String := do
           m := m.set! sw.sorted[k] (k : Int)
         return m
       let evs := sw.sorted.toList.map (fun i => " | " ++ showEvent sw.arena (fun p => posMap[p]!) i)
-      pure (s!"OK ev={sw.popped} bumps={sw.bumps} n={sw.sorted.size}" ++ String.join evs)
-  | _, _ => pure "EMPTYBOX"
+      s!"OK ev={sw.popped} bumps={sw.bumps} n={sw.sorted.size}" ++ String.join evs
+  | _, _ => "EMPTYBOX"
+
+def runSubdiv : P String := do
+  let (ar, prec) ← arith
+  let o ← op
+  let dbg ← bool
+  let budget ← nat
+  let a ← mpoly
+  let b ← mpoly
+  pure (subdivAnswer ar prec o { dbg := dbg, budget := budget } a b)
 
 /-- `x y L|R S|C cid (ox oy | - -)`: appends the event (and its other event) to the arena -/
 def parseEventPair (a : Arena) : P (Arena × Nat) := do
@@ -339,16 +342,91 @@ def runSplaySet : P String := do
     (st', o :: outs)) ({}, [])
   pure ("OK " ++ " ".intercalate outs.reverse)
 
+def revOrd : Ordering → Ordering
+  | .lt => .gt | .gt => .lt | .eq => .eq
+
+/-- ORDLAWS: the same loops as the harness, evaluated with the model's orders -/
+def runOrdLaws : P String := do
+  let (ar, prec) ← arith
+  let o ← op
+  let budget ← nat
+  let a ← mpoly
+  let b ← mpoly
+  if !(mpInRange prec a && mpInRange prec b) then pure "SKIP-RANGE" else
+  let f := fillQueue a b o
+  match f.sbbox, f.cbbox with
+  | some sb, some cb =>
+    match subdivide ar { dbg := false, budget := budget } f.fq sb cb o with
+    | .error e => pure (showFail e)
+    | .ok sw =>
+      let evs := sw.sorted
+      let ar' := sw.arena
+      let n := evs.size
+      let lim := min n 300
+      let (pairs, eq, anti) := Id.run do
+        let mut pairs := 0
+        let mut eq := 0
+        let mut anti := 0
+        for i in [0:lim] do
+          for j in [i+1:lim] do
+            pairs := pairs + 1
+            let x := cmpEv ar' evs[i]! evs[j]!
+            let y := cmpEv ar' evs[j]! evs[i]!
+            if x == .eq || y == .eq then eq := eq + 1
+            if x != revOrd y then anti := anti + 1
+        return (pairs, eq, anti)
+      let w := if n ≤ 40 then n else 8
+      let (triples, trans) := Id.run do
+        let mut triples := 0
+        let mut trans := 0
+        for i in [0:lim] do
+          for j in [i+1:min lim (i + w)] do
+            for k in [j+1:min lim (i + w)] do
+              triples := triples + 1
+              let ab := cmpEv ar' evs[i]! evs[j]!
+              let bc := cmpEv ar' evs[j]! evs[k]!
+              let ac := cmpEv ar' evs[i]! evs[k]!
+              if ab == bc && ab != ac then trans := trans + 1
+              let ba := cmpEv ar' evs[j]! evs[i]!
+              let ca := cmpEv ar' evs[k]! evs[i]!
+              let cb_ := cmpEv ar' evs[k]! evs[j]!
+              if cb_ == ba && cb_ != ca then trans := trans + 1
+        return (triples, trans)
+      let lefts := evs.filter (fun i => ar'[i]!.left && ar'[i]!.other.isSome)
+      let ll := min lefts.size 150
+      let (sp, seq, santi) := Id.run do
+        let mut sp := 0
+        let mut seq := 0
+        let mut santi := 0
+        for i in [0:ll] do
+          for j in [i+1:ll] do
+            let e1 := lefts[i]!
+            let e2 := lefts[j]!
+            let o1 := ar'[e1]!.other.getD 0
+            let o2 := ar'[e2]!.other.getD 0
+            if ar'[e1]!.point.x > ar'[o2]!.point.x || ar'[e2]!.point.x > ar'[o1]!.point.x then continue
+            sp := sp + 1
+            let x := segCmp ar false ar' e1 e2
+            let y := segCmp ar false ar' e2 e1
+            if x == .eq || y == .eq then seq := seq + 1
+            if x != revOrd y then santi := santi + 1
+        return (sp, seq, santi)
+      pure s!"OK n={n} pairs={pairs} eq={eq} antisym={anti} triples={triples} trans={trans} segpairs={sp} segeq={seq} segantisym={santi}"
+  | _, _ => pure "EMPTYBOX"
+
 /-- answer one `RUN` request (the text after `RUN <k> `) -/
-def answer (req : String) : String :=
+def answer (req : String) (resolve : Nat → Option MPoly := fun _ => none) : String :=
   let toks := (req.splitOn " ").filter (· ≠ "") |>.toArray
   let cur : Cur := { toks := toks, pos := 1 }
   let run (p : P String) : String :=
     match p cur with
     | some (s, _) => s
     | none => "BADREQ"
-  match toks[0]? with
-  | some "BOOL" => run (do let r ← parseBool; pure (answerBool r))
+  -- `X`-prefixed kinds are answered by the model only
+  let kind := toks[0]?.map (fun k => if k.startsWith "X" then (k.drop 1).toString else k)
+  match kind with
+  | some "BOOL" => run (do let r ← parseBool resolve; pure (answerBool r))
+  | some "ORDLAWS" => run runOrdLaws
   | some "SUBDIV" => run runSubdiv
   | some "FILLQ" => run runFillq
   | some "CMPEV" => run runCmpEv
